@@ -25,7 +25,7 @@ class Invalid(Exception):
 class St(object):
     """Static description of a stream: item type, may a lifetime be empty,
     is it downstream of take/first."""
-    __slots__ = ('t', 'empty', 'after_take', 'aliased')
+    __slots__ = ('t', 'empty', 'after_take', 'aliased', 'own')
 
     def __init__(self, t, empty=False, after_take=False, aliased=False):
         self.t = t
@@ -37,6 +37,9 @@ class St(object):
         # item would see later mutations, which is the user's aliasing, not a
         # property of rxsci (DESIGN.md, C01/C09).
         self.aliased = aliased
+        # own: the items are list objects that the previous operator created and handed over (batch, to_list); a
+        # consumer may change them in place.  Set by check_node, consumed by the in-place mappers only.
+        self.own = False
 
     def copy(self, **kw):
         s = St(self.t, self.empty, self.after_take, self.aliased)
@@ -116,6 +119,10 @@ def check_node(node, st, fl):
 
     if op == 'map':
         f = F.MAPS.get(node['fn'])
+        if f is not None and f[1] == 'ownlist':
+            if not (st.own and t == 'list') or fl.in_tee:
+                raise Invalid('in-place mapper needs a list it owns')
+            return st.copy(t='list')
         if f is None or not _match(t, f[1]):
             raise Invalid('map type')
         return st.copy(t=f[2] if f[2] != 'any' or f[1] != 'any' else 'any')
@@ -185,7 +192,9 @@ def check_node(node, st, fl):
             raise Invalid('take n')
         return st.copy(empty=st.empty or node['n'] == 0, after_take=True)
     if op == 'to_list':
-        return St(listy(t), False, st.after_take)
+        r = St(listy(t), False, st.after_take)
+        r.own = True
+        return r
     if op == 'to_array':
         if (t, node['tc']) not in (('int', 'q'), ('float', 'd')):
             raise Invalid('to_array type')
@@ -209,7 +218,9 @@ def check_node(node, st, fl):
     if op == 'batch':
         if node['n'] < 1:
             raise Invalid('batch n')
-        return St(listy(t), st.empty, st.after_take)
+        r = St(listy(t), st.empty, st.after_take)
+        r.own = True
+        return r
     if op in ('identity', 'do_action', 'assert_', 'assert_1'):
         return st.copy()
     if op == 'progress':
@@ -295,7 +306,8 @@ def check_node(node, st, fl):
             inner_empty = bool(node.get('closing'))
         else:
             key = node['key']
-            if key not in F.KEYS or not (_match(t, F.KEYS[key][1]) or (op == 'split' and F.KEYS[key][1] == t + '_nan')):
+            if key not in F.KEYS or not (_match(t, F.KEYS[key][1]) or (op == 'split' and F.KEYS[key][1] == t + '_nan')
+                                         or (op == 'group_by' and F.KEYS[key][1] == t + '_impure')):
                 raise Invalid('window key type')
             inner_empty = False
         out = check_pipeline(node['inner'], St(t, inner_empty, False), fl)
@@ -391,7 +403,9 @@ class Gen(object):
         t = st.t
         if op == 'map':
             names = names_for(F.MAPS, t)
-            if r.random() < 0.05 or not names:
+            if st.own and t == 'list' and not fl.in_tee and r.random() < 0.5:
+                names = names_for(F.MAPS, 'ownlist')
+            elif r.random() < 0.05 or not names:
                 names = names_for(F.MAPS, 'any')
             return [{'op': 'map', 'fn': r.choice(names)}] if names else []
         if op == 'starmap':
@@ -693,6 +707,8 @@ def build_node(node, ctx, mode, path, i):
         val = node.get('value')
         if val == 'rec':
             return rs.error.map(F.error_to_rec)
+        if val == 'same':
+            return rs.error.map(F.error_same)
         return rs.error.map(lambda e: val)
     if op == 'router':
         errors, route = rs.error.create_error_router()
@@ -733,6 +749,13 @@ def build_node(node, ctx, mode, path, i):
         return rs.ops.start_with(list(node['padding']))
     inner = build(node['inner'], ctx, mode, '%s/%d:in' % (path, i))
     if op == 'group_by':
+        if node['key'] == 'rr3':
+            calls = ctx.extra.setdefault('keycalls', {}).setdefault('%s/%d' % (path, i), [])
+
+            def round_robin(item, _calls=calls):
+                _calls.append(len(_calls) % 3)
+                return _calls[-1]
+            return rs.ops.group_by(round_robin, inner)
         return rs.ops.group_by(key_fn(node['key']), inner)
     if op == 'roll':
         return rs.data.roll(node['window'], node['stride'], inner)
@@ -744,12 +767,25 @@ def build_node(node, ctx, mode, path, i):
             active_timeout=timeout(node, 'active'),
             inactive_timeout=timeout(node, 'inactive'),
             closing_mapper=F.closing_of if node.get('closing') else None,
-            include_closing_item=bool(node.get('include', True)),
+            include_closing_item=include_arg(node),
             pipeline=inner)
     raise Invalid('unknown operator %r' % (op,))
 
 
 _EPOCH = None
+
+
+def include_arg(node):
+    """include: True/False, or 'one'/'zero'/'np_true' = the flag given as 1 / 0 / numpy.True_ (not the builtin bool)"""
+    v = node.get('include', True)
+    if v == 'one':
+        return 1
+    if v == 'zero':
+        return 0
+    if v == 'np_true':
+        import numpy
+        return numpy.True_
+    return bool(v)
 
 
 def time_mapper(node):
